@@ -164,7 +164,50 @@ def rand_decl(seed, k):
     return _rand_decl_cache[key]
 
 
+MULTI_COLUMN_ELEMS = None
+
+
+def multi_column_list_type(rng):
+    """A scrutinee with several columns one of which is a list: tuples / pairs of a list and
+    small refutable types. The decision tree keeps one matrix per list length per column and
+    seeds new matrices with the wildcard rows met so far: the clauses with `_` in the list
+    column and a refutable pattern elsewhere are the ones a wrong seeding loses."""
+    el = rng.pick([T.BOOL, T.INT, T.BOOL, T.Option(T.BOOL)])
+    other = rng.pick([T.BOOL, T.BOOL, T.Option(T.BOOL), T.Adt(T.LIB["Color"]), T.INT, T.List(T.BOOL)])
+    k = rng.below(6)
+    if k == 0:
+        return T.Tuple(other, T.List(el))
+    if k == 1:
+        return T.Pair(T.List(el), other)
+    if k == 2:
+        return T.Tuple(T.List(el), other, T.BOOL)
+    return T.Tuple(T.List(el), other)
+
+
+def multi_column_clauses(rng, t):
+    cols = list(t.args)
+    cl = []
+    for _ in range(rng.range(2, 5)):
+        subs = []
+        for ct in cols:
+            if ct.kind == "List":
+                if rng.chance(1, 3):
+                    subs.append(P.WILD)
+                else:
+                    n = rng.pick([0, 1, 1, 2, 2, 3])
+                    elems = tuple(P.rand_pat(rng, ct.args[0], 1, leaf=(0, 1)) if rng.chance(1, 3) else P.WILD for _ in range(n))
+                    subs.append(("l", elems, P.WILD if (n > 0 and rng.chance(1, 2)) else None))
+            else:
+                subs.append(P.WILD if rng.chance(1, 2) else P.rand_pat(rng, ct, 1, leaf=(0, 1)))
+        cl.append([("p" if t.kind == "Pair" else "t", tuple(subs))])
+    if rng.chance(4, 5):
+        cl.append([P.WILD])
+    return cl
+
+
 def rand_type(rng, d, seed, top=False):
+    if top and rng.chance(1, 5):
+        return multi_column_list_type(rng)
     if top and d >= 2 and rng.chance(1, 4):
         # focus: lists of structured elements (several inspected positions inside one list
         # pattern stress the decision tree's per-length matrices and column bookkeeping)
@@ -233,6 +276,8 @@ def gen_random_clauses(rng, t):
     """-> [[alt patterns]] (var-free structural patterns; decorated later)."""
     if t.kind == "List" and rng.chance(2, 3):
         return list_focus_clauses(rng, t)
+    if t.kind in ("Tuple", "Pair") and any(a.kind == "List" for a in t.args) and rng.chance(3, 4):
+        return multi_column_clauses(rng, t)
     strat = rng.below(10)
     if strat < 3:
         n = rng.range(1, 6)
